@@ -21,8 +21,8 @@ type c09 struct{}
 
 func init() { register(c09{}) }
 
-func (c09) ID() string      { return "C09" }
-func (c09) NewCase() any    { return &C09Case{} }
+func (c09) ID() string       { return "C09" }
+func (c09) NewCase() any     { return &C09Case{} }
 func (c09) Cases(c *Ctx) int { return c.Pick(700, 14000) }
 
 func (c09) Gen(dt *drv.T, c *Ctx) any {
